@@ -203,7 +203,16 @@ impl Story {
         // Report any errors that occured during evaluation.
         // This may either have been StoryExceptions that were thrown
         // and caught during evaluation, or directly added with AddError.
-        if self.get_state().has_error() || self.get_state().has_warning() {
+        //
+        // A time-limited continue that pauses inside a look-ahead reports
+        // nothing yet: the snapshot holds its own copy of the messages raised
+        // before the line end, and the look-ahead may still be rewound and
+        // raise its own again. They are reported when the continue completes.
+        let paused_in_lookahead =
+            self.async_continue_active && self.state_snapshot_at_last_new_line.is_some();
+
+        if !paused_in_lookahead && (self.get_state().has_error() || self.get_state().has_warning())
+        {
             match &self.on_error {
                 Some(on_err) => {
                     if self.get_state().has_error() {
